@@ -118,7 +118,12 @@ func (fv *FV) stringLit(st *State, v string) Term {
 		}
 		fv.axioms = append(fv.axioms, and(fs...))
 	}
-	return Term{S: fmt.Sprintf("(mk-str %s 0 %d)", name, len(v)), Sort: sStr, T: types.Typ[types.String]}
+	t := Term{S: fmt.Sprintf("(mk-str %s 0 %d)", name, len(v)), Sort: sStr, T: types.Typ[types.String]}
+	if fv.strLits == nil {
+		fv.strLits = map[string]string{}
+	}
+	fv.strLits[t.S] = v
+	return t
 }
 
 func (fv *FV) evalCond(st *State, e ast.Expr) string {
@@ -163,6 +168,13 @@ func (fv *FV) evalExpr(st *State, e ast.Expr) Term {
 	case *ast.SelectorExpr:
 		return fv.evalSelector(st, x)
 	case *ast.IndexExpr:
+		// constant package-level table
+		if sels, ok := fv.evalTable(st, x); ok {
+			if t, ok := fv.tableTerm(sels); ok {
+				return fv.nameTerm(st, "tbl", t)
+			}
+			fv.fail(x.Pos(), "partially indexed table %s used as a value", fv.src(x))
+		}
 		// generic function instantiation used as a value: nmove[T]
 		if tv, ok := fv.info.Types[x.X]; ok {
 			if _, isSig := tv.Type.Underlying().(*types.Signature); isSig {
@@ -275,7 +287,13 @@ func (fv *FV) pkgVar(st *State, v *types.Var) Term {
 	key := "V:" + shortPkg(pkgPathOf(v)) + "." + v.Name()
 	s := fv.sortOf(v.Type())
 	fv.compSort[key] = s
-	return Term{S: fv.heapGet(st, key), Sort: s, T: v.Type()}
+	t := Term{S: fv.heapGet(st, key), Sort: s, T: v.Type()}
+	if v.Exported() && types.Identical(v.Type(), types.Universe.Lookup("error").Type()) && !fv.declared["nonnil:"+key] {
+		fv.declared["nonnil:"+key] = true
+		fv.axioms = append(fv.axioms, not(eq(compConst(key), "0")))
+		fv.assumptions["exported error variable "+v.Pkg().Name()+"."+v.Name()+" is non-nil and is not reassigned"] = true
+	}
+	return t
 }
 
 func (fv *FV) evalUnary(st *State, x *ast.UnaryExpr) Term {
@@ -470,6 +488,9 @@ func (fv *FV) evalCompositeLit(st *State, x *ast.CompositeLit, addr bool) Term {
 			}
 			r := fv.newRef(st, "new"+named.Obj().Name())
 			for j := 0; j < ut.NumFields(); j++ {
+				if isOpaqueStruct(ut.Field(j).Type()) {
+					vals[j] = Term{S: fv.newRef(st, "emb"+ut.Field(j).Name()), Sort: sInt} // the embedded object
+				}
 				key, _ := fv.fieldComp(named, ut.Field(j))
 				fv.heapSetNoFrame(st, key, sto(fv.heapGet(st, key), r, vals[j].S))
 			}
